@@ -96,7 +96,9 @@ func genColValue(t *rapid.T, u int) val.V {
 	case 5, 6, 7:
 		return val.Text(rapid.SampledFrom([]string{"", "a", "A", "a ", "a  ", "b", "B", "ab", "abc", "é", "É", "1", "12", "1.5", "1e3", " 7", "0x10", "a\x00b", "lit", "x", "7 ", "-3",
 			// text of every UTF-8 length class (collations compare bytes; NOCASE folds A-Z only)
-			"€", "日本", "ж", "Ж", "ω", "𝔘", "é€", "É€", "z€", "ÿ", "ß"}).Draw(t, "cvt"))
+			"€", "日本", "ж", "Ж", "ω", "𝔘", "é€", "É€", "z€", "ÿ", "ß",
+			// TEXT that is not well-formed UTF-8: SQLite stores and returns any bytes
+			"caf\xe9", "\xff\xfe", "\xed\xa0\x80", "a\xc3"}).Draw(t, "cvt"))
 	case 8:
 		return val.Null()
 	default:
